@@ -83,3 +83,7 @@ def run(ck, prog, ctx):
     ck.extra["methods"] = names
     ck.assume("error exits of the recursive annotation propagation after the ids were validated are infeasible for builders fed through the public API")
     ck.assume("std mutator / non-mutator tables of DESIGN 3.0")
+    # failures of fallible crate functions are propagated or asserted, never turned into success
+    ck.rule("ERR", "every call of a crate function returning Result<_, HpoError> propagates the error (`?` / return / match), panics on it (unwrap / expect), or is a listed documented exception; none replaces it by a default")
+    from engines import check_error_discipline
+    check_error_discipline(ck, "ERR", prog, r"^src/ontology/builder\.rs$", allowed=[(r"^Ontology::hpo$", r"try_new$", "documented: Ontology::hpo answers None for an id that is not in the ontology")], floor=5)
